@@ -235,6 +235,22 @@ class C09(Check):
                 if got != exp:
                     acc.violation(f'rendering-from-file-differs-from-direct-feed:{label}@{name}', {'decoder': name, 'start': [hex(x) for x in s1], 'lookups': 0, 'prefix': 'files'},
                                   {'from_file': got, 'direct': exp})
+            # ONE facade object (and one caller-owned table) that has first listed a version-3 dump whose EMBEDDED code table gives this
+            # call's id another decodable name: the next listing is decoded with the table the caller supplied, which is unchanged
+            other = 'BSC_getpid' if name != 'BSC_getpid' else 'BSC_getuid'
+            embedded = B.v3_block(B.TAG_TRACE_CODES, f'{E.n2i(name):#x} {other}\n'.encode())
+            first = B.v3([(1, 10, 'p')], [recs[:2]], [embedded])
+            f = PyKdebugParser()
+            tc2 = dict(tc)
+            try:
+                list(f.traces(io.BytesIO(first), tc2))
+                got = [str(t) for t in f.traces(io.BytesIO(B.v2([(1, 10, 'p')], 0, recs)), tc2)]
+            except Exception as ex:
+                got = ['RAISED ' + type(ex).__name__]
+            acc.case(nontrivial=True, transitions=6, outcome=None)
+            if got != exp or tc2 != tc:
+                acc.violation(f'rendering-from-file-differs-from-direct-feed:after-a-dump-with-another-embedded-table@{name}',
+                              {'decoder': name, 'start': [hex(x) for x in s1], 'lookups': 0, 'prefix': 'files'}, {'from_file': got, 'direct': exp, 'callers_table_changed': tc2 != tc})
 
     def run_shard(self, desc, acc):
         if desc[0] == 'files':
